@@ -63,6 +63,12 @@ def run(model: RepoModel, rep, tier: str):
     rep.rule("C20.R4", "the synthetic initialiser is nameable: add_main_func names the wrapper with the constant the shipped rule uses and "
                        "is registered for every language", min_instances=2)
     rep.rule("C20.R5", "settings discovery accepts exactly `entry.yaml` and `*-entry.yaml` under the settings directory", min_instances=2)
+    from ..generic import check_memo_keys
+    rep.rule("C20.R7", "the rule filters are functions of the unit they are asked about: a memoised filter result is keyed by every attribute "
+                       "of the unit the filter reads (no memo at all is fine)", 0)
+    n_memo = check_memo_keys(model, rep, "C20.R7", [EP])
+    if n_memo == 0:
+        rep.holds("C20.R7", f"{EP}::no memoised filter", EP, 0, "filter_rule_by_unit_info / check_rules compute their answer on every call")
     from ..generic import check_accumulators
     check_accumulators(model, rep, "C20.R6", [EP], {},
                        "rules or matching methods are skipped, so a configured entry point is not selected", 1)
@@ -440,6 +446,12 @@ def _if_on(field):
 
 
 MUTANTS = [
+    ("unit-filter-memoised-by-basename", EP,
+     lambda src: __import__("sa.mutate", fromlist=["x"]).text_replace(
+         __import__("sa.mutate", fromlist=["x"]).text_replace(src, "        candidate_rules = []\n\n        for rule in self.entry_point_rules:",
+                                                                "        cache_key = (unit_info.lang, unit_name)\n        if cache_key in self.candidate_rule_cache:\n            return self.candidate_rule_cache[cache_key]\n        candidate_rules = []\n\n        for rule in self.entry_point_rules:"),
+         "            candidate_rules.append(rule)\n\n        return candidate_rules", "            candidate_rules.append(rule)\n\n        self.candidate_rule_cache[cache_key] = candidate_rules\n        return candidate_rules"),
+     "memo self.candidate_rule_cache is keyed by every input"),
     ("drop-lang-filter", EP, _m("del", "EntryPointGenerator", "filter_rule_by_unit_info", _if_on("rule.lang")), "EntryPointRule.lang"),
     ("drop-unit-name-filter", EP, _m("del", "EntryPointGenerator", "filter_rule_by_unit_info", _if_on("rule.unit_name")), "EntryPointRule.unit_name"),
     ("drop-unit-path-filter", EP, _m("del", "EntryPointGenerator", "filter_rule_by_unit_info", _if_on("rule.unit_path")), "EntryPointRule.unit_path"),
